@@ -54,6 +54,7 @@ pub fn run_case(c: &Value) -> Value {
             read_obs(d.as_ymd(), d.weekday(), d.day_of_year())
         }
         "cron_parse" | "cron_hist" => crate::cron::run_case(c),
+        "tz_lookup" | "tz_hostile" => crate::tz::run_case(c),
         _ => {
             // every other operation: operands given as abstract values, executed by ops::exec
             let a = crate::ops::val_from_json(&c["a"]);
@@ -88,8 +89,10 @@ pub fn main(args: &[String]) {
                 true
             } else if e["k"] == "panic" {
                 obs["k"] == "panic"
+            } else if e["k"] == "noncrash" {
+                obs["k"] == "ok" || obs["k"] == "err"
             } else {
-                *e == obs
+                json_match(e, &obs)
             }
         });
         if !ok {
@@ -104,4 +107,14 @@ pub fn main(args: &[String]) {
         "{}",
         json!({"cases": cases.len(), "mismatches": mismatches, "panics": panics, "samples": samples})
     );
+}
+
+/// Equality up to the wildcard string "any" on the expected side (inside arrays/objects).
+fn json_match(e: &Value, o: &Value) -> bool {
+    match (e, o) {
+        (Value::String(s), _) if s == "any" => true,
+        (Value::Array(a), Value::Array(b)) => a.len() == b.len() && a.iter().zip(b.iter()).all(|(x, y)| json_match(x, y)),
+        (Value::Object(a), Value::Object(b)) => a.len() == b.len() && a.iter().all(|(k, v)| b.get(k).map(|w| json_match(v, w)).unwrap_or(false)),
+        _ => e == o,
+    }
 }
